@@ -27,7 +27,6 @@ var nilableFields = map[string]bool{
 	"execOpts.state":                      true,
 	"nodeInputJSON.ScriptSig":             true,
 	"nodeOutputJSON.ScriptPubKey":         true,
-	"nodeOutputJSON.LockingScript":        true,
 	"nodeUTXOWrapper.UTXO":                true,
 	"nodeOutputWrapper.Output":            true,
 	"nodeTxWrapper.Tx":                    true,
